@@ -3,7 +3,7 @@
    (The second half of C13 — malformed text is rejected by a standard exception, never a crash —
    is a statement about the C++ run time; it is observed by the correspondence run, not proved.) *)
 From Coq Require Import List NArith ZArith Bool.
-From V Require Import TimbukDefs TimbukProofs.
+From V Require Import TimbukDefs TimbukProofs TimbukLoadDefs TimbukLoadProofs.
 
 (* parsing the serialisation of a well-formed description gives the same final states and rules
    (and symbols and states), in the same order *)
@@ -55,6 +55,21 @@ Theorem C13_fa_same : forall d e, fa_same d e = true <->
      exists t', nullary t' = true /\ In t' (d_trans e) /\ t_par t' = t_par t).
 Proof. exact fa_same_spec. Qed.
 
+(* value-level models of LoadFromAutDesc / DumpToAutDesc with a state dictionary, for the explicit,
+   BDD bottom-up and BDD top-down encodings (e): dumping a freshly loaded automaton gives the final
+   states and rules of the description back, name by name; the dictionary is injective *)
+Theorem C13_dump_load : forall e d, dump (load e d) = Some (d_finals d, d_trans d).
+Proof. exact dump_load. Qed.
+Theorem C13_load_injective : forall e d q q', In q (state_keys e d) -> In q' (state_keys e d) ->
+  fwd beq (l_states (load e d)) q = fwd beq (l_states (load e d)) q' -> q = q'.
+Proof. exact load_injective. Qed.
+(* dump -> text -> parse -> load -> dump gives the same final states and rules under the same names *)
+Theorem C13_dump_text_load_dump : forall e d, wf_desc d = true ->
+  exists fr, dump (load e d) = Some fr /\
+  exists d2, parse (serialize (dumped_desc fr)) = Some d2 /\
+             dump (load e d2) = Some (d_finals d, d_trans d).
+Proof. exact dump_text_load_dump. Qed.
+
 Print Assumptions C13_parse_serialize.
 Print Assumptions C13_parse_serialize_exact.
 Print Assumptions C13_wf_uniform.
@@ -66,3 +81,6 @@ Print Assumptions C13_desc_same.
 Print Assumptions C13_text_denotes.
 Print Assumptions C13_model_text_denotes.
 Print Assumptions C13_fa_same.
+Print Assumptions C13_dump_load.
+Print Assumptions C13_load_injective.
+Print Assumptions C13_dump_text_load_dump.
